@@ -40,3 +40,8 @@ reg("C14", weave=["concurrency/cmap", "concurrency/slice"],
     assumptions=["ring.Ring / ring.Buffered have no concurrency: their part is a seeded sequential comparison against the reference, included as the refinement half of the property",
                  "RemoveFront is only issued on a non-empty buffered ring (its result on an empty one is unspecified)"],
     probes_required=["porcupine.checked", "ring.sequence", "buffered.sequence"])
+reg("C12", weave=["concurrency"],
+    quick_runs=320000, thorough_runs=6000000,
+    real=["concurrency/runner.go", "concurrency/closer.go", "concurrency/closer_unit.go (WithFatalShutdown, -tags unit)"],
+    stub=["runners, closers, logger and the fatal-shutdown action are harness stubs programmed from the tape"],
+    assumptions=["fatal-shutdown must fire if the slowest closer exceeds grace + 1.5 ms (injected-delay budget) and must not if it stays 1.5 ms under; the band in between is not judged"])
